@@ -35,11 +35,12 @@ package limitlistener
 // everything is closed the last cap comes into force
 // (C17.http-resize-not-applied) and of cap+1 fresh connections that are kept
 // open exactly cap are accepted (C17.http-capacity-not-reused /
-// C17.http-cap-exceeded).
+// C17.http-cap-exceeded); then the LimitListener is closed in that state (at
+// its cap, Accept waiting for a slot, one client in the backlog, the wrapped
+// listener's Close passing gates): no further connection may be handed out.
 //
 // Leniency: none beyond the "applied" definition above. Not generated: Close of
-// the LimitListener while connections are open, concurrent SetMaxConnection
-// callers.
+// the LimitListener in the middle of a run, concurrent SetMaxConnection callers.
 
 import (
 	"fmt"
@@ -234,6 +235,10 @@ func (l *c17lInner) Addr() net.Addr { return c17lAddr{} }
 
 func (l *c17lInner) Close() error {
 	h := l.h
+	// closing a listener takes a moment (gates), like a close(2) would
+	for i := 0; i < h.yields && i < 4 && !h.teardown; i++ {
+		h.r.Yield("c17l.listener-close")
+	}
 	h.lclosed = true
 	if h.wake != nil {
 		close(h.wake)
@@ -509,6 +514,19 @@ func c17lExec(r *sim.Run, sci interface{}) {
 			r.Violate("C17.http-capacity-not-reused", "after all connections were closed only %d of maxConnections=%d fresh connections are accepted\nhistory: %s", h.accepted-base, want, h.history())
 		}
 		// give the listener the chance to accept one too many (onAccept reports it)
+		for i := 0; i < 3 && !r.Violated() && !r.Aborted(); i++ {
+			r.Sleep(time.Millisecond)
+		}
+	}
+	if !r.Violated() && !r.Aborted() {
+		// the server shuts down: the listener is at its cap, its Accept waits for
+		// a slot and one more client waits in the backlog. Closing the listener
+		// must not let that client in (onAccept reports it).
+		if h.nOpen >= h.lastCap && len(h.pending) > 0 {
+			r.Probe("ll.listener_closed_at_cap_with_backlog")
+		}
+		h.note("shutdown open=%d backlog=%d", h.nOpen, len(h.pending))
+		ll.Close()
 		for i := 0; i < 3 && !r.Violated() && !r.Aborted(); i++ {
 			r.Sleep(time.Millisecond)
 		}
